@@ -632,6 +632,8 @@ class Ev:
                 return ("len", args[0])
             return ("len", args[0], (self.fn.path, b))
         if f.get("trait") in ("core::ops::index::Index", "core::ops::index::IndexMut") and len(args) == 2:
+            if isinstance(args[1], tuple) and len(args[1]) >= 2 and args[1][0] == "agg" and str(args[1][1]).endswith("RangeFull::RangeFull"):
+                return args[0]      # x[..] is x
             return ("index", args[0], args[1])
         return ("call", path, args, (self.fn.path, b))
 
